@@ -238,6 +238,11 @@ def run(ctx):
                         and x.comparators[0].value is None and isinstance(x.left, ast.Name):
                     if _none_when_unnamed(ctx, edit, x.left, b, field, request_params):
                         return isinstance(x.ops[0], ast.IsNot)
+                if isinstance(x, ast.Compare) and len(x.ops) == 1 and isinstance(x.ops[0], (ast.IsNot, ast.Is)) and isinstance(x.comparators[0], ast.Constant) \
+                        and x.comparators[0].value is None and isinstance(x.left, ast.Call) and isinstance(x.left.func, ast.Attribute) and x.left.func.attr == "get" \
+                        and isinstance(x.left.func.value, ast.Name) and x.left.func.value.id in request_params and x.left.args and const_str(x.left.args[0]) == field \
+                        and (len(x.left.args) == 1 or (isinstance(x.left.args[1], ast.Constant) and x.left.args[1].value is None)):
+                    return isinstance(x.ops[0], ast.IsNot)      # <request>.get(field) is not None, written in the test itself
                 return None
             if C.branch_when(b, atom_nn) == lab:
                 guarded = True
@@ -249,6 +254,10 @@ def run(ctx):
             if og is not None:
                 ctx.undecided("C07.2", edit, "store to %r runs under `%s`, whose operand comes out of a conversion this rule cannot fold for an unnamed field (None): whether an edit that does not name %r "
                               "reaches the store is not decided" % (ck, og, field), ins.node)
+                continue
+            kv = _presence_through_variable(edit, deps, request_params)
+            if kv is not None:
+                ctx.undecided("C07.2", edit, "store to %r runs under `%s`, which tests the request for the field a variable names; which field that is at this store was not evaluated" % (ck, kv), ins.node)
                 continue
             rec = _request_record_guard(ctx, edit, node, request_params)
             if rec is not None:
@@ -550,6 +559,14 @@ def filter_table(ctx, pt, edit, filt, stores):
                         # edges only and cannot say which arm runs
                         ctx.undecided("C07.3", filt, "filter row [%s]: the filter uses exception handling to select the dictionary, which the tracer does not model" % label, "filter row: " + label)
                         continue
+                    inner = [n for n in visited if n.kind == "iter" and n is not head]
+                    if inner or [o for o in other if o != "raises"]:
+                        # the row runs through statements whose effect on the three dictionaries this tracer does not model (an
+                        # inner loop over the sections, a dictionary chosen into a local and popped from): no verdict
+                        ctx.undecided("C07.3", filt, "filter row [%s]: the filter %s, which the tracer does not model" % (
+                            label, "runs an inner loop (`%s`)" % norm(inner[0].ast)[:50].split("\n")[0] if inner else "executes `%s`" % "; ".join(o for o in other if o != "raises")[:80]),
+                            "filter row: " + label)
+                        continue
                     ok = got == want and not other
                     ctx.decide("C07.3", filt, ok, "filter row [%s]: effects %s as specified" % (label, sorted(got) or "none"),
                                "filter row [%s]: effects %s%s, specification says %s" % (label, sorted(got) or "none", (" + " + "; ".join(other)) if other else "", sorted(want) or "none"),
@@ -580,6 +597,23 @@ def _none_when_unnamed(ctx, fn, name_node, at, field, request_params, keyvar=Non
                 continue
         return False
     return True
+
+
+def _presence_through_variable(edit, deps, request_params):
+    """A controlling test asks whether the request names the field held in a variable (`key in args`, `key not in args`,
+    `args.get(key) is not None`): its text, else None."""
+    for b, lab in deps:
+        t = C.test_expr(b)
+        if t is None:
+            continue
+        for x in ast.walk(t):
+            if isinstance(x, ast.Compare) and len(x.ops) == 1 and isinstance(x.ops[0], (ast.In, ast.NotIn)) and isinstance(x.left, ast.Name) \
+                    and isinstance(x.comparators[0], ast.Name) and x.comparators[0].id in request_params:
+                return norm(t)
+            if isinstance(x, ast.Call) and isinstance(x.func, ast.Attribute) and x.func.attr == "get" and isinstance(x.func.value, ast.Name) and x.func.value.id in request_params \
+                    and x.args and isinstance(x.args[0], ast.Name):
+                return norm(t)
+    return None
 
 
 def _request_record_guard(ctx, edit, node, request_params):
